@@ -379,7 +379,7 @@ fn wd_plans(thorough: bool) -> Vec<Plan> {
     seeds.push(("four_requesters", small_funds(|| seed_four_requesters(&k), 0)));
     seeds.push(("ten_batches", small_funds(|| seed_ten_batches(&k), 0)));
     seeds.push(("thirty_three_batches", small_funds(|| seed_n_batches(&k, 33, true, false), 0)));
-    seeds.push(("many_requesters", small_funds(|| seed_many_requesters(&k, 45), 0)));
+    seeds.push(("many_requesters", small_funds(|| seed_many_requesters(&k, 120), 0)));
     seeds.push(("huge_store", small_funds(|| seed_n_batches(&k, 150, true, true), 0)));
     seeds.push(("mid_received", small_funds(|| seed_mid_received(&k), 0)));
     if thorough {
@@ -918,6 +918,9 @@ pub fn run(prop: &str, thorough: bool) -> i32 {
         } else {
             r.run_scenario(&p.sc, lim, &p.required);
         }
+    }
+    if prop == "C05" {
+        crate::store_pin::counterless_batches(&mut r, "C05");
     }
     if prop == "C06" {
         // the lifecycle also has to work on the stores that deployed contracts already hold
